@@ -39,7 +39,7 @@ pub struct World {
 impl World {
     /// Starts a fresh instance. Must be called inside a runtime; installs the
     /// thread-local recorder and the capacity override for this thread.
-    pub async fn start(capacity: usize, phase_ms: Option<u64>) -> Arc<World> {
+    pub async fn start(capacity: usize, phase_ms: Option<u64>, out: Option<Out>) -> Arc<World> {
         // Align the hand-out phase relative to the server's rounding grid, if asked to.
         if let Some(phase) = phase_ms {
             let epoch = deltio::subscriptions::verif_rounding_epoch();
@@ -53,7 +53,13 @@ impl World {
             }
         }
         let start = Instant::now();
-        let rec = Recorder::new(start);
+        let rec = match out {
+            None => Recorder::new(start),
+            Some(out) => Recorder::with_sink(
+                start,
+                Box::new(move |event: &Value| write_event(&out, event.clone())),
+            ),
+        };
         deltio::verif::install_local(Some(Arc::clone(&rec)));
         deltio::verif::set_local_capacity(capacity);
 
@@ -111,6 +117,17 @@ impl World {
     pub fn take_events(&self) -> Vec<Value> {
         self.rec.take().into_iter().map(sanitize).collect()
     }
+}
+
+/// Where a worker thread streams its events to.
+pub type Out = Arc<Mutex<std::fs::File>>;
+
+/// Writes one event as one line, at once (so that it survives an abort of the process).
+pub fn write_event(out: &Out, event: Value) {
+    use std::io::Write;
+    let mut line = serde_json::to_vec(&sanitize(event)).unwrap();
+    line.push(b'\n');
+    let _ = out.lock().unwrap().write_all(&line);
 }
 
 /// TLC's Json module rejects `null` and wraps integers above 2^31: map `null` to -1
